@@ -978,7 +978,8 @@ def transient_faults(ctx):
             i, n = r.choice(dirs_ * 2 + files_) if files_ else r.choice(dirs_)
             prim = r.choice(['stat', 'stat', 'scandir']) if n['k'] == 'd' else r.choice(['open', 'fstat', 'stat'])
             en = r.choice(['EACCES', 'EIO', 'ENOMEM', 'ESTALE', 'EPERM'])
-            nth = r.choice([2, 2, 3])
+            # (the first access too: a listing that fails once, in the scan for unregistered Manifests, and works in the walk that follows)
+            nth = r.choice([2, 2, 3]) if r.random() < 0.7 else 1
             b, s = sc.fresh()
             try:
                 paths = t.realise(b, s)
